@@ -80,9 +80,10 @@ def _fix_case(draw):
 def _e2e_case(draw):
     from harness import strategies as S
     prof = S.profile(max_methods=3, max_services=1, max_messages=3, max_fields=4, max_files=1, p_comment=0.85, rich_comments=True,
-                     comment_quotes=True, comment_backslash=False, p_http=0.3, p_sig=0.2, p_routing=0.0, p_paged=0.1, p_lro=0.1, p_stream=0.1)
+                     comment_quotes=True, comment_backslash=True, p_http=0.6, p_sig=0.2, p_routing=0.0, p_paged=0.1, p_lro=0.1, p_stream=0.1)
     api = draw(S.apis(prof))
-    return {"k": "e2e", "api": api, "options": {"params": ["autogen-snippets=False"], "transport": "grpc", "snippets": False}}
+    t = draw(st.sampled_from(["grpc", "grpc+rest", "grpc+rest"]))
+    return {"k": "e2e", "api": api, "options": {"params": ["autogen-snippets=False", f"transport={t}"], "transport": t, "snippets": False}}
 
 
 # coverage-guided stage (atheris/libFuzzer through Hypothesis' fuzz_one_input): the cheap sub-cases only
